@@ -448,7 +448,8 @@ theorem layout_rowwise (s : Str) (r0 : Row) (c : Cell) (r1 : Row) (nameRow unitR
       match parseColumnNames nameRow with
       | .error e => .error e
       | .ok ns =>
-        if (unitRow.take ns.length).all Cell.isStr then
+        if unitRow.length < ns.length then .error .valueError
+        else if (unitRow.take ns.length).all Cell.isStr then
           .ok ⟨s.drop 2, false, destinations c, ns, (unitRow.take ns.length).map stripOfStr,
                dataRows.map (fun l => l.take ns.length)⟩
         else .error .valueError := by
@@ -461,9 +462,12 @@ theorem layout_rowwise (s : Str) (r0 : Row) (c : Cell) (r1 : Row) (nameRow unitR
   cases parseColumnNames nameRow with
   | error e => rfl
   | ok ns =>
-    by_cases hu : (unitRow.take ns.length).all Cell.isStr = true
-    · simp [hu]
-    · simp [hu]
+    have hmin : (min ns.length unitRow.length < ns.length) ↔ unitRow.length < ns.length := by omega
+    by_cases hl : unitRow.length < ns.length
+    · simp [hl, hmin]
+    · by_cases hu : (unitRow.take ns.length).all Cell.isStr = true
+      · simp [hl, hu, hmin]
+      · simp [hl, hu, hmin]
 
 /-- **transposed header**: each line is `name, unit, values…`; a line with fewer than two cells is an
     input error -/
@@ -474,7 +478,8 @@ theorem layout_transposed (s : Str) (r0 : Row) (c : Cell) (r1 : Row) (l0 : Row) 
       match parseColumnNames ((l0 :: lines).map (fun l => getD0 l 0)) with
       | .error e => .error e
       | .ok ns =>
-        if (((l0 :: lines).take ns.length).map (fun l => getD0 l 1)).all Cell.isStr then
+        if (((l0 :: lines).take ns.length).map (fun l => getD0 l 1)).length < ns.length then .error .valueError
+        else if (((l0 :: lines).take ns.length).map (fun l => getD0 l 1)).all Cell.isStr then
           match transposedRows (((l0 :: lines).take ns.length).map (fun l => l.drop 2)) with
           | .error e => .error e
           | .ok rows => .ok ⟨(s.drop 2).dropLast, true, destinations c, ns,
@@ -491,11 +496,14 @@ theorem layout_transposed (s : Str) (r0 : Row) (c : Cell) (r1 : Row) (l0 : Row) 
     cases parseColumnNames ((l0 :: lines).map (fun l => getD0 l 0)) with
     | error e => rfl
     | ok ns =>
-      by_cases hu : (((l0 :: lines).take ns.length).map (fun l => getD0 l 1)).all Cell.isStr = true
-      · simp only [hu, Bool.not_true, Bool.false_eq_true, if_false, if_true]
-        simp only [List.map_take]
-        cases transposedRows (List.take ns.length (List.map (fun l => List.drop 2 l) (l0 :: lines))) <;> rfl
-      · simp only [hu, Bool.not_false, if_true, Bool.false_eq_true, if_false]
+      by_cases hl : (((l0 :: lines).take ns.length).map (fun l => getD0 l 1)).length < ns.length
+      · simp only [hl, decide_true, if_true]
+      · simp only [hl, decide_false, Bool.false_eq_true, if_false]
+        by_cases hu : (((l0 :: lines).take ns.length).map (fun l => getD0 l 1)).all Cell.isStr = true
+        · simp only [hu, Bool.not_true, Bool.false_eq_true, if_false, if_true]
+          simp only [List.map_take]
+          cases transposedRows (List.take ns.length (List.map (fun l => List.drop 2 l) (l0 :: lines))) <;> rfl
+        · simp only [hu, Bool.not_false, if_true, Bool.false_eq_true, if_false]
 
 /-- destinations: the blank-separated tokens of the trimmed second-row cell (a set: duplicates dropped) -/
 theorem destinations_text (s : Str) : destinations (.str s) = dedup (splitOn ' ' (strip s)) := rfl
